@@ -3,6 +3,7 @@ import PikaVerif.Lemmas.RwT
 import PikaVerif.Lemmas.RwProg
 import PikaVerif.Lemmas.RwSolo
 import PikaVerif.Lemmas.RwMax
+import PikaVerif.Lemmas.RwRetry
 /-!
 # C04r — termination of async_rw_mutex programs and final states of maximal runs (follow-up of C04)
 
@@ -17,6 +18,14 @@ the retrying thread's own expected value (`C04r_retry_is_stutter`; the spurious 
 nothing at all) and can repeat; every bound below therefore counts *all events except CAS retries*
 and says so (`Rw.retries log`).  Retries are bounded when the thread runs alone (`C04_solo_start`:
 ≤ 3 steps to push or be granted).  All other events are real moves.
+Sharper: a retry is *real* (`Rw.isReal`: the head has moved since the thread's last observation,
+`h0 < q.length`) or *spurious* (the weak CAS failed although its expected value was current: the
+state is unchanged).  Real retries are bounded by the progress of others: at most `na²` in any
+accepted log (`C04r_real_retries_bounded`; each successful push can make each other thread in the
+loop fail once).  So the **only unbounded stutter is the spurious failure of
+`compare_exchange_weak`**, and with a CAS that does not fail spuriously (the harness executes it as
+`compare_exchange_strong`) every run of a program has at most `bound + |kinds|²` events
+(`C04r_bounded_strong`).
 
 * `Rw.mu` is a natural-number measure: `mu s' + cost e ≤ mu s + gain e` for every accepted event
   (`C04r_measure_decreases`): every event of the implementation (`load`, successful / final `cas`,
@@ -100,6 +109,33 @@ theorem C04r_bounded (kinds : List Bool) (c w r : Nat) (log : List Ev) (p : PSt)
   have h2 := costs_retries log
   rw [phi_pinit] at h1
   omega
+
+/-- **Real CAS retries are bounded.**  In any accepted log the number of CAS retries that failed
+    because the head had really moved is at most the square of the number of requests. -/
+theorem C04r_real_retries_bounded (log : List Ev) (s : St) (h : runLog step init log = some s) :
+    reals init log ≤ s.na * s.na ∧ reals init log ≤ retries log :=
+  ⟨reals_bound log s h, reals_le_retries log init⟩
+
+/-- **Bounded runs, modulo spurious CAS failures only.**  The length of any accepted log of a
+    program is at most `bound + |kinds|²` + the number of *spurious* CAS failures in it
+    (`retries log - reals init log`); in particular, if no CAS fails spuriously the run has at most
+    `bound + |kinds|²` events. -/
+theorem C04r_bounded_strong (kinds : List Bool) (c w r : Nat) (log : List Ev) (p : PSt)
+    (h : runLog pstep (pinit kinds c w r) log = some p) :
+    log.length ≤ bound kinds c w r + kinds.length * kinds.length + (retries log - reals init log) ∧
+    (retries log = reals init log → log.length ≤ bound kinds c w r + kinds.length * kinds.length) := by
+  have h1 := runLog_phi log _ p inv_init h
+  have h2 := costs_retries log
+  rw [phi_pinit] at h1
+  have hs := runLog_pstep_step log _ p h
+  have h3 := reals_bound log p.s hs
+  have h4 := reals_le_retries log init
+  have hn := runLog_pna log _ p h
+  have hle : p.s.na ≤ kinds.length := by simp [pinit, init] at hn; omega
+  have h5 : p.s.na * p.s.na ≤ kinds.length * kinds.length := Nat.mul_le_mul hle hle
+  constructor
+  · omega
+  · intro he; omega
 
 /-- **Maximal runs exist.**  Every accepted log of a program extends to a maximal one. -/
 theorem C04r_maximal_exists (kinds : List Bool) (c w r : Nat) (log : List Ev) (p : PSt)
@@ -212,6 +248,18 @@ example : ∃ p, runLog pstep (pinit [true, false, false, true] 1 1 1) runEx = s
     exchange on the last shared state and the continuation of the detached access 3 - and
     `soloRank` is 2 -/
 example : C04.reaches (runEx.take 25) (fun s => soloRank s == 2 && s.acc 3 == .queued true) = true := by decide
+
+/-- a real CAS retry: 1 and 2 are reads of one group behind the held read-write access 0; both load
+    the empty open queue, 2 pushes first, the CAS of 1 fails because the head moved (class 1 = an
+    operation state), its second CAS succeeds -/
+def retryLog : List Ev :=
+  [.req 0 0 true true false, .xchg 0 0 0, .req 0 1 false true false, .req 0 2 false false false,
+   .start 1 0 false, .load 1 0 2 true false,
+   .start 2 1 false, .load 2 1 0 false false, .start 3 2 false, .load 3 2 0 false false,
+   .cas 3 2 true 0 false false, .cas 2 1 false 1 false false, .cas 2 1 true 0 false false]
+
+example : (runLog step init retryLog).isSome = true ∧ reals init retryLog = 1 ∧ retries retryLog = 1 ∧
+    reals init runEx = 0 ∧ retries runEx = 1 := by decide
 
 /-- not maximal before the end: after the mutex has been destroyed and everything started, the run
     cannot stop while access 1 is still queued (the measure is still positive) -/
